@@ -62,7 +62,7 @@ def theorem_names(path):
         if m and ns and ns[-1] == m.group(1):
             ns.pop()
             continue
-        m = re.match(r'\s*(?:private\s+|protected\s+)?theorem\s+(\S+)', line)
+        m = re.match(r'\s*(?:protected\s+)?theorem\s+(\S+)', line)
         if m:
             out.append('.'.join(ns + [m.group(1)]))
     return out
@@ -217,7 +217,7 @@ def do_replay(pid, cfg, path):
         log(f'replay {path}: no scenario recorded ({r.get("kind")}): re-run ./check {pid} --tier quick')
         return 2
     lines = [l.split() for l in r['scenario'].splitlines() if l.strip()]
-    wit, d, im, mo = eval_scenario(pid, cfg, lines)
+    wit, d, im, mo = eval_scenario(pid, cfg, lines, use_model=not any(l[0] == 'tick' for l in lines))
     log('scenario:')
     log(r['scenario'])
     log('monitor witnesses on the implementation trace:', json.dumps(wit, indent=1))
@@ -312,6 +312,21 @@ def main():
                 all_scen.append((fam, s))
         texts = [scen.to_text(s) for _, s in all_scen]
         im, mo, diffs = corr.compare(texts, cfg['tags'], cfg.get('runner', 'FullRunner'))
+        n_model = len(texts)
+        # implementation-only families (e.g. non-dyadic times): monitors only, no model comparison
+        for fam, nq, nt in cfg.get('impl_only_families', []):
+            n = nt if tier == 'thorough' else nq
+            extra = [(fam, s) for s in scen.generate(fam, f'{seed}-{tier}', n)]
+            cdir = os.path.join(HERE, 'corpus', fam)
+            if os.path.isdir(cdir):
+                for fn in sorted(os.listdir(cdir)):
+                    with open(os.path.join(cdir, fn)) as f:
+                        extra.insert(0, (fam, [l.split() for l in f.read().splitlines() if l.strip()]))
+            etexts = [scen.to_text(s) for _, s in extra]
+            im += corr.run_impl(etexts, cfg.get('runner', 'FullRunner'))
+            mo += [[] for _ in etexts]
+            all_scen += extra
+            texts += etexts
 
         # 5. monitors on the implementation traces
         mon_hits = []
@@ -340,7 +355,7 @@ def main():
                 ww, _, _, _ = eval_scenario(pid, cfg, c, use_model=False)
                 return any(x.split(':')[-1].strip()[:30] == w[0].split(':')[-1].strip()[:30] for x in ww) or bool(ww)
             small = shrink(pid, cfg, s, pred)
-            ww, d, _, _ = eval_scenario(pid, cfg, small)
+            ww, d, _, _ = eval_scenario(pid, cfg, small, use_model=not any(l[0] == 'tick' for l in small))
             text = json.dumps(ww)
             k = match_known(pid, text, known)
             if k:
@@ -448,7 +463,8 @@ def main():
             'trusted_base': TRUSTED_BASE + cfg.get('trusted_extra', []),
             'theorems': {n: axioms.get(n) for n in names},
             'partial_theorems': cfg.get('partial', []),
-            'traces_validated_against_impl': len(texts) - len(diffs),
+            'traces_validated_against_impl': n_model - len(diffs),
+            'implementation_only_traces': len(texts) - n_model,
             'evaluations': len(texts),
             'distinct_nontrivial': len(nontrivial),
             'rule': cfg['rule'],
